@@ -28,6 +28,8 @@ CLAIMED = {
          "Lean proof of the authorizer model + differential correspondence"),
  "C10": ("proof", "Lean: resolve = first inbound route whose criteria all hold (resolve_first_match), non-inbound routes unreachable for every request and configuration, 404/405 exactly when nothing matches, path/host-wildcard/method criteria characterised; pinned-tree witnesses kept; tie: generated config texts through real parser+compiler+runtime state, generated requests through real resolveIngress and the real ingress handler", "§7 C10",
          "Lean proof of the resolver model + differential correspondence"),
+ "C20": ("proof", "Lean, over tables regenerated from the Go source each run: gating decision stated outright for every tool name (unknown tools denied), tables consistent (role table = dispatch switch = descriptor list), every mutating tool needs a flag and >= operate, code tables = spec.md, flags/principal off => no mutating tool, role monotone, list = allowed, audit on every outcome; tie: exhaustive enumeration of the real server (816 calls x 4 argument shapes + 24 lists) with config/db/foreign-file/audit observation", "§7 C20",
+         "translator-regenerated Lean tables + decide-checked theorems + exhaustive enumeration of the real server"),
  "C12": ("proof", "Lean: every enqueue record of every model run satisfies C12.stepOK (admission iff below depth, drop_oldest accounting, refusal leaves queue unchanged); tie: admit-profile traces on memory and SQLite", "§7 C12",
          "Lean proof over the queue model + differential correspondence (memory, SQLite)"),
  "C14": ("proof", "Lean: every operator-mutation record of every model run satisfies C14.stepOK (exact frame, newest-first capped selection, preview = real, counts exact); tie: operator-profile traces with tie timestamps", "§7 C14",
